@@ -37,6 +37,23 @@ Theorem C19_is_frozen : forall g, g_frozen (fst (api_step g OpFreeze)) = true.
 Proof. reflexivity. Qed.
 Print Assumptions C19_is_frozen.
 
+(** a cleared graph is a fresh graph: nothing of its earlier life survives clear() (nodes, adjacency, event log, snapshot
+    counters, attributes), so every later call sequence behaves as on a new graph of the same class and mode;
+    clear_edges() keeps exactly the nodes *)
+Theorem C19_clear_fresh : forall g, g_frozen g = false -> clear g = empty_graph (g_dir g) (g_rem g).
+Proof. intros g H. unfold clear, empty_graph. rewrite H. reflexivity. Qed.
+Print Assumptions C19_clear_fresh.
+Theorem C19_clear_then_calls : forall g cs, g_frozen g = false ->
+  run_calls (clear g) cs = run_calls (empty_graph (g_dir g) (g_rem g)) cs.
+Proof. intros g cs H. rewrite (C19_clear_fresh g H). reflexivity. Qed.
+Print Assumptions C19_clear_then_calls.
+Theorem C19_clear_edges_fresh : forall g,
+  g_edges (clear_edges g) = [] /\ g_events (clear_edges g) = [] /\ g_snaps (clear_edges g) = [] /\
+  g_nodes (clear_edges g) = g_nodes g /\ stream (clear_edges g) = [] /\ snapshot_ids (clear_edges g) = [] /\
+  forall u v t, has_interaction (clear_edges g) u v t = false.
+Proof. intros g. repeat split. Qed.
+Print Assumptions C19_clear_edges_fresh.
+
 Example C19_example :
   let g := run_api (empty_graph true true) [OpAdd 1 2 (Some 0) (Some 3); OpBlocked; OpAddNode 9 4; OpClearEdges; OpAdd 2 1 (Some 5) None; OpFreeze; OpClear] in
   node_ids g = [1; 2; 9] /\ akeys (g_edges g) = [(2, 1)] /\ map fst (g_snaps g) = [5] /\ g_frozen g = true.
